@@ -68,8 +68,9 @@ fn when_then_regex() -> &'static Pattern {
 }
 
 fn salience_regex() -> &'static Pattern {
-    SALIENCE_REGEX
-        .get_or_init(|| Pattern::new(r"salience\s+(\d+)").expect("Invalid salience regex pattern"))
+    SALIENCE_REGEX.get_or_init(|| {
+        Pattern::new(r"salience\s+(-?\d+)").expect("Invalid salience regex pattern")
+    })
 }
 
 fn test_condition_regex() -> &'static Pattern {
